@@ -307,6 +307,12 @@ class Interp:
                 w, cls = self.sym_strings[v]
                 return SegStr.field(v, w, cls)
             return SegStr.lit(v)
+        if isinstance(v, Rat) and v.eq(Rat.atom('pi')):
+            import math
+            try:
+                return SegStr.lit(format(math.pi, spec or ''))
+            except (ValueError, TypeError):
+                raise Unsupported('format spec %r' % (spec,))
         if isinstance(v, Rat):
             if v.is_const() and spec in (None, '', 'd') and v.const_value().denominator == 1:
                 return SegStr.lit(str(int(v.const_value())))
@@ -316,7 +322,11 @@ class Interp:
                 try:
                     if spec and spec.startswith('%'):
                         return SegStr.lit(spec % (int(cv) if spec.endswith('d') else float(cv)))
-                    return SegStr.lit(format(float(cv) if not (spec or '').endswith('d') else int(cv), spec or ''))
+                    floaty = bool(spec) and (spec[-1] in 'eEfFgG%' or '.' in spec)
+                    if cv.denominator == 1 and not floaty:
+                        # integral value without a float presentation type: printed as an integer (len(), counters)
+                        return SegStr.lit(format(int(cv), spec or ''))
+                    return SegStr.lit(format(float(cv), spec or ''))
                 except (ValueError, TypeError):
                     raise Unsupported('format spec %r for a number' % (spec,))
             w = None
@@ -327,9 +337,7 @@ class Interp:
                     w = None
             if w is None:
                 w = self.num_widths.get(repr(v))
-            if w is None:
-                raise Unsupported('printed width of %r is not known' % (v,))
-            return SegStr.field(v, w, 'num', spec)
+            return SegStr.field(v, w, 'num', spec)       # w None: width unknown (len() is then undecided)
         if v is None:
             return SegStr.lit('None')
         if isinstance(v, bool):
@@ -364,6 +372,23 @@ class Interp:
                 for kk, aa, _ in parse_format(spec):
                     if kk == 'field':
                         spec = spec.replace('{%s}' % aa, str(kwargs.get(aa, '')))
+            if isinstance(v, (str, SegStr)) and spec:
+                m_ = re.fullmatch(r'(?:(.)?([<>^]))?(\d+)?s?', spec)
+                if not m_:
+                    raise Unsupported('format spec %r for a string' % spec)
+                piece = self.seg(v)
+                width = int(m_.group(3)) if m_.group(3) else 0
+                pad = max(0, width - len(piece))
+                fill = m_.group(1) or ' '
+                align = m_.group(2) or '<'
+                if align == '<':
+                    piece = piece + fill * pad
+                elif align == '>':
+                    piece = SegStr.lit(fill * pad) + piece
+                else:
+                    piece = SegStr.lit(fill * (pad // 2)) + piece + fill * (pad - pad // 2)
+                out = out + piece
+                continue
             out = out + self.seg(v, spec)
         return self.plain(out)
 
@@ -547,6 +572,13 @@ class Interp:
                                              % (lit.literal(), sym)))
                     res = False
                 return res if op == '==' else not res
+            if op in ('in', 'not in') and isinstance(b, (ListV, DictV)):
+                pa = self.plain(a)
+                items = b.items if isinstance(b, ListV) else list(b.d.keys())
+                if isinstance(pa, str):
+                    res = any(isinstance(self.plain(x), str) and self.plain(x) == pa for x in items)
+                    return res if op == 'in' else not res
+                raise Unsupported('membership of a composite abstract string', node)
             if op in ('in', 'not in') and isinstance(a, str) and a not in self.sym_strings:
                 r = self.seg(b).contains(a)
                 if r is None:
@@ -915,6 +947,22 @@ class Frame:
                     m_ = re.fullmatch(r'%[-+ 0#]*\d*(?:\.\d+)?[dfeEgs]', left)
                     if m_ and isinstance(right, (Rat, str, SegStr)):
                         return I.plain(I.seg(right, left))
+                    vals = right.items if isinstance(right, ListV) else [right]
+                    conc = []
+                    for v_ in vals:
+                        if isinstance(v_, Rat) and (v_.is_const() or v_.iszero()):
+                            cv = v_.const_value() if not v_.iszero() else 0
+                            conc.append(int(cv) if cv.denominator == 1 else float(cv))
+                        elif isinstance(v_, str) and v_ not in I.sym_strings:
+                            conc.append(v_)
+                        else:
+                            conc = None
+                            break
+                    if conc is not None:
+                        try:
+                            return left % tuple(conc)
+                        except (TypeError, ValueError):
+                            raise _RaisedExc(Raised('TypeError', n))
                 raise Unsupported('operator %', n, self.module.relpath)
             a = self.ev(n.left)
             b = self.ev(n.right)
@@ -1421,6 +1469,8 @@ class ZipV:
                 lists.append(list(s.d.keys()))
             elif isinstance(s, Obj) and self.frame is not None:
                 lists.append(self.frame.iter_items(s))
+            elif s is None or isinstance(s, (bool, Rat)):
+                raise _RaisedExc(Raised('TypeError'))       # not iterable
             else:
                 raise Unsupported('zip over %r' % (s,))
         n = min(len(x) for x in lists) if lists else 0
@@ -1644,7 +1694,9 @@ def builtin_call(I, fr, name, args, kwargs, n):
     if name == 'set':
         v = args[0] if args else ListV([])
         if isinstance(v, ListV) and all(isinstance(x, str) for x in v.items):
-            return ListV(sorted(set(v.items)))
+            r_ = ListV(list(dict.fromkeys(v.items)))
+            r_.is_set = True
+            return r_
         raise Unsupported('set() of non-string items', n)
     if name == 'sorted':
         v = args[0]
@@ -1694,6 +1746,13 @@ class TypeOf:
 def bound_native(I, fr, bn, args, kwargs, n):
     b, name = bn.base, bn.name
     if isinstance(b, ListV):
+        if name == 'add' and getattr(b, 'is_set', False):
+            v = I.plain(args[0])
+            if not isinstance(v, str):
+                raise Unsupported('set.add of a non-string value', n)
+            if v not in b.items:
+                b.items.append(v)
+            return None
         if name == 'append':
             v = args[0]
             if fr.in_vec_loop:
@@ -1785,7 +1844,7 @@ def bound_native(I, fr, bn, args, kwargs, n):
         return '<formatted>'
     if isinstance(b, str) and b not in I.sym_strings and name in (
             'lower', 'upper', 'strip', 'lstrip', 'rstrip', 'isdigit', 'isalpha', 'isspace', 'isalnum', 'title',
-            'capitalize', 'count', 'find', 'rfind', 'index', 'zfill', 'swapcase', 'casefold') \
+            'capitalize', 'count', 'find', 'rfind', 'index', 'zfill', 'swapcase', 'casefold', 'ljust', 'rjust') \
             and all(isinstance(a, (str, Rat)) for a in args):
         pa = [a if isinstance(a, str) else _as_int(a, n) for a in args]
         r = getattr(b, name)(*pa)
@@ -1839,6 +1898,10 @@ def abstract_str_method(I, fr, b, name, args, kwargs, n):
         if not isinstance(args[0], str):
             raise Unsupported('find() of a symbolic needle', n)
         return C(sb.find(args[0], start))
+    if name in ('ljust', 'rjust') and args:
+        w_ = _as_int(args[0], n)
+        pad = max(0, w_ - len(sb))
+        return I.plain(sb + ' ' * pad) if name == 'ljust' else I.plain(SegStr.lit(' ' * pad) + sb)
     if name == 'rfind' and args and isinstance(args[0], str):
         r = sb.rfind(args[0])
         if r is None:
@@ -2299,6 +2362,8 @@ def _np_minmax(which):
                 I.roots[name] = I.roots[at[0]]
                 I.D.kind[name] = 'root'
                 return Rat.atom(name)
+        if isinstance(v, ListV) and not v.items:
+            raise _RaisedExc(Raised('ValueError', n))       # zero-size array to reduction operation
         if isinstance(v, ListV) and v.items:
             try:
                 best = v.items[0]
